@@ -16,6 +16,11 @@ def gen(ctx):
     yield dict(kind="ev1", hist=[[0, 1, 1, 0, 1, 1, 0, 1, 1]], dtype="int32", scale=1, r=1, rule="nks:110", T=5, memo="recursive_lit")
     for _ in range(ctx.n(500, 6000)):
         yield c03.rand_case(rng, memos=["True", "recursive_lit"])
+    # many distinct neighbourhoods in one call (4^5 = 1024 possible windows) and long runs: capacity thresholds of a cache
+    for memo in ("True", "recursive_lit"):
+        for (N, T) in ([(40, 10), (9, 140)] if ctx.tier == "quick" else [(40, 10), (60, 24), (9, 140), (9, 300)]):
+            yield dict(kind="ev1", hist=[[rng.randrange(4) for _ in range(N)]], dtype="int32", scale=1, r=2,
+                       rule="hash:4:3:%d:0" % rng.randint(0, 3), T=T, memo=memo)
     try:
         from . import c09_2d
         yield from c09_2d.gen(ctx)
